@@ -15,8 +15,8 @@ REQUIRED = [
     "DaeVerif.C04.Props.traffic_compiled_decides_as_written",
     "DaeVerif.C04.Props.dns_request_compiled_decides_as_written",
     "DaeVerif.C04.Props.dns_response_compiled_decides_as_written",
-    "DaeVerif.C04.Props.internal_selectors_decide_as_written_partial",
-    "DaeVerif.C04.Props.internal_selectors_full_is_false",
+    "DaeVerif.C04.Props.internal_selectors_decide_as_written",
+    "DaeVerif.C04.Props.selector_matcher_is_first_match",
     "DaeVerif.C04.Props.alias_and_geodata_preserve_meaning",
     "DaeVerif.C04.Props.geodata_preserves_meaning",
     "DaeVerif.C04.Props.sorting_conditions_preserves_meaning",
@@ -47,7 +47,10 @@ def fields(line):
 def analyse(ctx, name, agg):
     """diff impl/model line by line, check dec == spec on both sides, build replays."""
     ops_p, impl_p, model_p, descr_p = (os.path.join(ctx.out, f"{name}.{e}") for e in ("ops", "impl", "model", "descr"))
-    mism = ctx.diff_streams(ops_p, impl_p, model_p, name)
+    # the model line carries two extra fields (generator sensitivity, merged-rule flag) that have no
+    # counterpart on the implementation side
+    strip = lambda l: " ".join(t for t in l.split(" ") if not t.startswith(("sens=", "m=")))
+    mism = ctx.diff_streams(ops_p, impl_p, model_p, name, canon=strip)
     ops, impl, model = read_lines(ops_p), read_lines(impl_p), read_lines(model_p)
     descr = [json.loads(l) for l in read_lines(descr_p)]
     known = {k.get("key"): k for k in ctx.known}
@@ -102,6 +105,14 @@ def analyse(ctx, name, agg):
             if pd.get("changed"):
                 agg["distinct"].add((cur, ops[i]))
             agg["decisions"].add(fi.get("dec"))
+            fm = fields(model[i])
+            for j, k in enumerate(("sens_negated_merge", "sens_value_only_dedup", "sens_outbound_by_name")):
+                if fm.get("sens", "000")[j:j + 1] == "1":
+                    agg[k] += 1
+            if fm.get("m") == "1":
+                agg["decided_by_merged_rule"] += 1
+            if fi.get("raw") not in ("err", None) and fi.get("dec") not in ("err", None) and fi.get("raw") != fi.get("dec"):
+                why = "the normalised program decides differently from the un-normalised one (both compiled by the real builder)"
             if fi.get("dec") not in ("err", None) and fi.get("dec") != fi.get("spec"):
                 why = "the compiled program decides differently from the rules as written"
         if why is None:
@@ -155,7 +166,8 @@ def run(ctx):
     ctx.required_theorems(REQUIRED)
 
     agg = {"programs": 0, "programs_changed": 0, "evaluations": 0, "distinct": set(), "decisions": set(),
-           "benign_ast_drift": 0, "flagged_lines": 0, "flagged_programs": set()}
+           "benign_ast_drift": 0, "flagged_lines": 0, "flagged_programs": set(),
+           "sens_negated_merge": 0, "sens_value_only_dedup": 0, "sens_outbound_by_name": 0, "decided_by_merged_rule": 0}
     sample_ops, dist = [], {}
     for (name, pkg, hfile, test), res in zip(streams, results):
         if res is None:
@@ -179,6 +191,8 @@ def run(ctx):
     ctx.cov["distinct_decisions_seen"] = len(agg["decisions"])
     ctx.cov["ast_differs_but_same_normal_form"] = agg["benign_ast_drift"]
     ctx.cov["flagged_lines"] = agg["flagged_lines"]
+    for k in ("sens_negated_merge", "sens_value_only_dedup", "sens_outbound_by_name", "decided_by_merged_rule"):
+        ctx.cov[k] = agg[k]
     ctx.cov["flagged_programs"] = len(agg["flagged_programs"])
     if agg["benign_ast_drift"]:
         ctx.say(f"NOTE: {agg['benign_ast_drift']} normalised programs differ from the model's AST but have the same normal form (same meaning by theorem); not a violation")
